@@ -17,6 +17,11 @@ Oracle (from the statement):
             tree of its explicit `![...]` spelling and runs the same spawn;
  (d) atomic: if Execer.exec(P + broken tail) raises SyntaxError then nothing of P ran (empty
             operation log, no spawn, namespace untouched);
+ (m) mixed: the same input also contains real command lines (bare, ![..], $[..], !(..), chains, pipes,
+            inside if/def; before / after / around the Python part; every command ending with return
+            code 0 or 1; both raise flags both ways): the Python part of the compiled tree still
+            equals ast.parse of the Python program, and the run does to the instrumented objects what
+            CPython does, around whatever the command lines alone do;
  (h) hist : several inputs in ONE session (same Execer, same globals/locals dicts, the real builtins
             module) while the name is added to / removed from builtins, the session globals or the
             exec locals - by the harness between inputs or by an input itself - after a non-trivial
@@ -38,7 +43,9 @@ Does NOT require (never flagged):
    shapes are dropped from clause (c) and counted;
  * that a broken tail is a syntax error for xonsh at all (`x = = 1`, `def :` are valid *commands*):
    clause (d) only speaks about inputs for which xonsh does raise SyntaxError;
- * what `n and m` means after `del n` (per-operand decision): boolean uses are not in clause (c).
+ * what `n and m` means after `del n` (per-operand decision): boolean uses are not in clause (c);
+ * whether / when a failing command raises (C05): clause (m) takes the outcome of the command lines
+   run alone as given and only demands that the Python part is untouched by them.
 """
 
 import ast
@@ -125,6 +132,15 @@ class _Ops:
     def __getitem__(self, key):
         self._w.log.append(("getitem", self._t, tag_of(key)))
         return self._w.new(f"{self._t}[{tag_of(key)}]")
+
+    def __setitem__(self, key, value):
+        self._w.log.append(("setitem", self._t, tag_of(key), tag_of(value)))
+
+    def __delitem__(self, key):
+        self._w.log.append(("delitem", self._t, tag_of(key)))
+
+    def __delattr__(self, name):
+        self._w.log.append(("delattr", self._t, name))
 
     def __call__(self, *a, **kw):
         self._w.log.append(("call", self._t, tuple(tag_of(x) for x in a), tuple(sorted((k, tag_of(x)) for k, x in kw.items()))))
@@ -236,9 +252,39 @@ def _canon(x):
     return repr(x)
 
 
+_PIPE_RC = None  # None: the recorder returns None; an int: it returns a finished fake pipeline with that return code
+
+
+class _FakeSpec:
+    background = False
+    raise_subproc_error = None
+    args = ["c9", "-x"]
+
+    def __init__(self, captured):
+        self.captured = captured
+
+
+class _FakePipe:
+    """What run_subproc hands back for a finished command, as far as the raise checks look at it."""
+
+    def __init__(self, rc, captured):
+        self.returncode = self.rtn = rc
+        self.output = self.out = ""
+        self.spec = _FakeSpec(captured)
+
+    def __bool__(self):
+        return self.returncode == 0
+
+
 def _recorder(cmds, captured=False, envs=None, in_boolop=False):
     SPAWNS.append(_canon(cmds))
-    return None
+    if _PIPE_RC is None:
+        return None
+    from xonsh.built_ins import XSH
+
+    cp = _FakePipe(_PIPE_RC, captured)
+    XSH.lastcmd = cp  # what the real run_subproc does when the pipeline has ended
+    return cp
 
 
 class _Timeout(BaseException):
@@ -252,9 +298,21 @@ def _alarm(signum, frame):
 CPU_LIMIT_S = 40.0  # the slowest input of the thorough space (`try/else` body + `; ]` tail) needs ~11 CPU-seconds in Execer._parse_ctx_free
 
 
-def _run(src, sess, how, slow_ok=False):
+def _run(src, sess, how, slow_ok=False, pipe=None):
     """Execute src under CPython ('ref') or the real Execer ('xonsh') from a fresh world.
+    pipe = (return code, flags) makes every recorded command end with that return code under
+    $XONSH_SUBPROC_RAISE_ERROR / $XONSH_SUBPROC_CMD_RAISE_ERROR = flags ('TF', ...).
     -> dict(exc, syntax, line, log, ns, spawns, ns0)"""
+    global _PIPE_RC
+    env_saved = None
+    if pipe is not None:
+        from xonsh.built_ins import XSH as _X
+
+        env_saved = {k: _X.env.get(k) for k in ("XONSH_SUBPROC_RAISE_ERROR", "XONSH_SUBPROC_CMD_RAISE_ERROR")}
+        _X.env["XONSH_SUBPROC_RAISE_ERROR"] = pipe[1][0] == "T"
+        _X.env["XONSH_SUBPROC_CMD_RAISE_ERROR"] = pipe[1][1] == "T"
+        _X.lastcmd = None
+        _PIPE_RC = pipe[0]
     w = World()
     g, loc = w.namespaces(sess)
     ns0 = _ns_summary(g, loc)
@@ -296,6 +354,11 @@ def _run(src, sess, how, slow_ok=False):
                 sys.modules.pop(k, None)
             else:
                 sys.modules[k] = v
+        if env_saved is not None:
+            _PIPE_RC = None
+            _X.lastcmd = None
+            for k, v in env_saved.items():
+                _X.env[k] = v
     return {"exc": exc, "syntax": syntax, "line": line, "log": [list(x) for x in w.log], "ns": _ns_summary(g, loc), "spawns": list(SPAWNS), "ns0": ns0}
 
 
@@ -476,6 +539,87 @@ def eval_py_src(src, sess):
         "nontrivial": nontrivial,
         "observed": {"tree": a_obs if a_sig else "equal to ast.parse", "run": _brief(got)},
         "expected": {"tree": _unparse(exp_tree), "run": _brief(ref)},
+    }
+
+
+def eval_mixed_src(q_src, sess, prefix, pos, rc, flags):
+    """clause (m): a unit made of real command lines and the pure-Python program q_src.  The Python
+    part of the compiled tree must equal ast.parse(q_src); running the unit must do to the
+    instrumented objects exactly what CPython does for q_src, around whatever the command lines
+    alone do (observed by running them alone - whether a failing command raises is C05's business)."""
+    try:
+        exp_tree = ast.parse(q_src)
+    except SyntaxError as e:
+        return {"status": "drop:invalid-python", "detail": str(e)}
+    ref = _run(q_src, sess, "ref")
+    if ref["exc"] in ("NameError", "UnboundLocalError"):
+        return {"status": "drop:precondition"}
+    whole, (lo, hi) = S.mixed_src(q_src, prefix, pos)
+    pre = "\n".join(S.PREFIXES[prefix][0]) + "\n"
+    sig = obs = None
+    try:
+        tree = parse_ctx(whole, sess)
+    except Exception as e:  # noqa: BLE001
+        tree = None
+        sig, obs = ("reject" if isinstance(e, SyntaxError) else "crash:" + type(e).__name__), f"{type(e).__name__}: {e}"[:200]
+    if tree is not None:
+        part = ast.Module(body=tree.body[lo:hi], type_ignores=[])
+        part = _BuiltinCmdToName().visit(part)
+        if any(c.startswith("subproc_") for c in xonsh_calls(part)):
+            sig, obs = "cmd", _unparse(part)
+        else:
+            d = first_diff(part, exp_tree)
+            if d:
+                sig, obs = "tree:" + d[0], d[1] + " | " + _unparse(part)
+    if sig is not None:
+        try:
+            cf_ok = first_diff(parse_ctx_free(q_src), exp_tree) is None
+        except SyntaxError:
+            cf_ok = False
+        if not cf_ok:
+            return {"status": "drop:c01"}
+    alone = _run(pre, sess, "xonsh", pipe=(rc, flags))
+    got = _run(whole, sess, "xonsh", pipe=(rc, flags))
+    # expected outcome composed from "commands alone" and "Python alone"
+    n_pre = {"before": 1, "after": 0, "both": 1}[pos]
+    n_post = {"before": 0, "after": 1, "both": 1}[pos]
+    exp = {"exc": None, "log": [], "spawns": [], "ns": None}
+    if n_pre:
+        exp["spawns"] += alone["spawns"]
+        exp["exc"] = alone["exc"]
+    if exp["exc"] is None:
+        exp["log"] = ref["log"]
+        exp["exc"] = ref["exc"]
+        if exp["exc"] is None and n_post:
+            exp["spawns"] += alone["spawns"]
+            exp["exc"] = alone["exc"]
+        if exp["exc"] is None:
+            # bindings = what the Python program leaves + what the command lines alone add (r9, h9),
+            # in whichever mapping they land (globals, or the separate locals of a session-local run)
+            exp["ns"] = {}
+            for part, names in ref["ns"].items():
+                d = dict(names)
+                d.update({k: v for k, v in alone["ns"].get(part, {}).items() if k not in alone["ns0"].get(part, {})})
+                exp["ns"][part] = dict(sorted(d.items()))
+    if sig is None:
+        if got["spawns"] != exp["spawns"]:
+            sig = "exec:spawn"
+        elif got["exc"] != exp["exc"]:
+            sig = "exec:exc"
+        elif got["log"] != exp["log"]:
+            sig = "exec:log"
+        elif exp["ns"] is not None and got["ns"] != exp["ns"]:
+            sig = "exec:ns"
+        if sig is not None:
+            obs = "Python part equal to ast.parse"
+    if sig is None:
+        return {"status": "ok", "nontrivial": len(ref["log"]) > 0 and len(alone["spawns"]) > 0}
+    return {
+        "status": "viol",
+        "sig": sig,
+        "nontrivial": True,
+        "observed": {"tree_of_python_part": obs, "run": _brief(got)},
+        "expected": {"tree_of_python_part": _unparse(exp_tree), "run": {"exception": exp["exc"], "log": exp["log"][:12], "spawns": exp["spawns"][:4], "bindings": exp["ns"]}, "commands_alone": _brief(alone)},
     }
 
 
@@ -787,6 +931,11 @@ def _eval_item(item):
                 argv = bare["use_text"].split() if S.USES[c["u"]]["argv"] else None
                 r = eval_del_src(bare["src"], expl["src"], bare, bare["use_line"], argv)
                 r["case"] = {"clause": "del", "src": bare["src"], "explicit_src": expl["src"], "globals": bare["globals"], "locals": bare["locals"], "use_line": bare["use_line"], "argv": argv}
+        elif kind == "mx":
+            bt = S.build(c)
+            prefix, pos, rc, flags = item[2:6]
+            r = eval_mixed_src(bt["src"], bt, prefix, pos, rc, flags)
+            r["case"] = {"clause": "mixed", "src": S.mixed_src(bt["src"], prefix, pos)[0], "python_src": bt["src"], "globals": bt["globals"], "locals": bt["locals"], "prefix": prefix, "pos": pos, "rc": rc, "flags": flags}
         else:
             bt = S.build(c)
             src = atomic_src(bt["src"], item[2], item[3], item[4])
@@ -832,6 +981,13 @@ def _minimise(item, sig):
         if kind == "del" and extra[0] != "del" and fails(cur, ["del"]):
             extra = ["del"]
             changed = True
+        if kind == "mx":
+            for pos_, simple in ((3, "TT"), (2, 0), (1, "before"), (0, "bare")):
+                if extra[pos_] != simple:
+                    t = list(extra)
+                    t[pos_] = simple
+                    if fails(cur, t):
+                        extra, changed = t, True
         if cur[B2_] != S.DEFAULT["b2"]:
             trial = list(cur)
             trial[B_], trial[B2_], trial[F_] = cur[B2_], S.DEFAULT["b2"], "head"
@@ -936,6 +1092,13 @@ def _check(item):
         }
         return (st, True, v)
     small = _minimise(item, r["sig"])
+    if small[0] == "mx":
+        # the same Python program failing the same way WITHOUT any command line is a finding of
+        # clauses (a)/(b), not of the mixing
+        alone = ("py", small[1])
+        ra = _eval_item(alone)
+        if ra["status"] == "viol" and ra["sig"] == r["sig"]:
+            small = _minimise(alone, r["sig"])
     rs = _eval_item(small)
     c = _coords(small[1])
     label = S.coords_label(c)
@@ -946,6 +1109,9 @@ def _check(item):
     elif kind == "del":
         key = f"del:{small[2]}:{label}#{rs['sig']}"
         clause = "after `del n` the later line is a command again (tree of the explicit ![...] spelling)"
+    elif kind == "mx":
+        key = f"mixed:{small[2]}:{small[3]}:rc{small[4]}:{small[5]}:{label}#{rs['sig']}"
+        clause = "bound names run as Python also when the same input contains command lines"
     else:
         key = f"atomic:{small[2]}:{small[3]}:{small[4]}:{label}#{rs['sig']}"
         clause = "a SyntaxError leaves nothing of the input executed"
@@ -1019,7 +1185,8 @@ def enumerate_items(thorough):
     uses = S.USE_ORDER
     core = S.CORE_USES
     wraps = S.WRAP_ORDER
-    mids = S.MID_ORDER
+    mids = [m for m in S.MID_ORDER if m not in S.PART_DEL_MIDS]  # other-scope interludes
+    pmids = S.PART_DEL_MIDS  # same-scope `del n[0]` / `del n.a` ...: the container stays bound
     pl1, pl2, pl3 = S.placements(1), S.placements(2), S.placements(3)
     sc1, sc2, sc3 = S.scope_strings(1), S.scope_strings(2), S.scope_strings(3)
     both = ("head", "arg")
@@ -1108,6 +1275,77 @@ def enumerate_items(thorough):
                 add(("py", _T(b="assign", o="f", b2=b2)))
             for b in binders:
                 add(("py", _T(b=b, o="f", b2="assign")))
+
+    with _Slice("py: binder x `del`/store of a PART of the object (subscript, slice, attribute, nested) x use"):
+        if not thorough:
+            for mid in pmids:
+                for b in fam_reps:
+                    for u in ("sub-flag", "not", "and"):
+                        add(("py", _T(b=b, mid=mid, u=u)))
+            for mid in ("del-subscript", "del-attr", "del-tuple-subscript"):
+                for b in binders:
+                    add(("py", _T(b=b, mid=mid)))
+            for o, i in pl1:
+                for mid in pmids:
+                    add(("py", _T(o=o, i=i, mid=mid)))
+                    add(("py", _T(o=o, i=i, mid=mid, u="and", f="arg")))
+        else:
+            for o, i in pl1:
+                for mid in pmids:
+                    for b in binders:
+                        for u in ("sub-flag", "and"):
+                            add(("py", _T(b=b, o=o, i=i, mid=mid, u=u)))
+            for mid in pmids:
+                for b in fam_reps:
+                    for u in uses:
+                        for f in both:
+                            add(("py", _T(b=b, mid=mid, u=u, f=f)))
+            for o, i in pl2:
+                for mid in pmids:
+                    for u in core:
+                        add(("py", _T(o=o, i=i, mid=mid, u=u)))
+
+    # ---------------- clause (m): command lines in the same compilation unit
+    with _Slice("mixed: command line(s) x position x return code x raise flags x Python program"):
+        bool_uses = S.BOOL_USES
+        if not thorough:
+            for prefix in S.PREFIX_ORDER:
+                for u in uses:
+                    add(("mx", _T(u=u), prefix, "before", 1, "TT"))
+                for u in bool_uses:
+                    for rc in (0, 1):
+                        for flags in S.MIX_FLAGS:
+                            add(("mx", _T(u=u), prefix, "before", rc, flags))
+                for u in ("sub-flag", "and"):
+                    for pos in ("after", "both"):
+                        add(("mx", _T(u=u), prefix, pos, 1, "FF"))
+            for prefix in ("bare", "captured-obj"):
+                for b in fam_reps:
+                    for u in ("sub-flag", "and"):
+                        add(("mx", _T(b=b, u=u), prefix, "before", 1, "TT"))
+                for w in wraps:
+                    for u in ("and", "or-not"):
+                        add(("mx", _T(u=u, w=w), prefix, "before", 1, "TT"))
+                for o, i in pl1:
+                    add(("mx", _T(o=o, i=i, u="and"), prefix, "before", 1, "TT"))
+        else:
+            for prefix in S.PREFIX_ORDER:
+                for u in uses:
+                    for pos in S.MIX_POS:
+                        for rc in (0, 1):
+                            for flags in (S.MIX_FLAGS if u in bool_uses or pos == "before" else ("TT", "FF")):
+                                add(("mx", _T(u=u), prefix, pos, rc, flags))
+            for prefix in ("bare", "explicit", "captured-obj", "in-func", "chain-or"):
+                for b in binders:
+                    for u in core:
+                        for rc in (0, 1):
+                            add(("mx", _T(b=b, u=u), prefix, "before", rc, "TT"))
+                for w in wraps:
+                    for u in uses:
+                        add(("mx", _T(u=u, w=w), prefix, "before", 1, "TT"))
+                for o, i in pl2:
+                    for u in bool_uses:
+                        add(("mx", _T(o=o, i=i, u=u), prefix, "before", 1, "FF"))
 
     # ---------------- clause (c)
     with _Slice("del: binder x scope x del form x use x wrapper"):
@@ -1218,8 +1456,8 @@ def run(ctx):
     ctx.log(f"{len(items)} items: " + ", ".join(f"{k}={v}" for k, v in slices.items()))
     res = common.pmap(_check, items, ctx.jobs, chunk=64, init=_init_worker, seed=ctx.seed)
     counts = {}
-    nontrivial = {"py": 0, "del": 0, "at": 0, "hi": 0}
-    reached = {"py": 0, "del": 0, "at": 0, "hi": 0}
+    nontrivial = {"py": 0, "del": 0, "at": 0, "hi": 0, "mx": 0}
+    reached = {"py": 0, "del": 0, "at": 0, "hi": 0, "mx": 0}
     accepted_tails = {}
     syntax_tails = {}
     viols = []
@@ -1243,7 +1481,7 @@ def run(ctx):
     for key, vs in per_key.items():
         vs[0]["note"] = f"{len(vs)} enumerated programs minimise to this key"
         ctx.add_violations(vs)
-    if not reached["py"] or not reached["del"] or not reached["hi"] or not syntax_tails:
+    if not reached["py"] or not reached["del"] or not reached["hi"] or not reached["mx"] or not syntax_tails:
         known = {k.get("key") for k in common.load_known_findings() if k.get("property") == ctx.prop and k.get("status") == "open"}
         msg = f"a clause was never exercised: {reached} syntax-error tails={sorted(syntax_tails)}"
         if all(k in known for k in per_key):
@@ -1351,6 +1589,9 @@ def replay(rec):
         r = eval_hist_steps(case["steps"], case["separate_locals"])
     elif case["clause"] == "py":
         r = eval_py_src(case["src"], sess)
+    elif case["clause"] == "mixed":
+        print(f"commands: prefix {case['prefix']!r} placed {case['pos']}, every command ends with return code {case['rc']}, $XONSH_SUBPROC_RAISE_ERROR/$XONSH_SUBPROC_CMD_RAISE_ERROR = {case['flags']}")
+        r = eval_mixed_src(case["python_src"], sess, case["prefix"], case["pos"], case["rc"], case["flags"])
     elif case["clause"] == "del":
         print("explicit:")
         for ln in case["explicit_src"].splitlines():
